@@ -112,7 +112,7 @@ def expected(chain):
 # ----------------------------------------------------------------------------------------
 NUM_SPELLINGS = ['1', '+1', '-1', '0', '0.5', '-0.25', '1e-1', '2', '+0.75', '12', '1.50', '-3e0', '.5']
 FREE_KEYS = ['mass', 'r', 'p', 'foo', 'k1', 'label', 'site', 't', 'zz', 'Res', 'S1', 'Rg']
-FREE_VALUES = ['abc', 's', 'l', '72', 'X1', 'a_b', '0.5', 'R', 'up', 'a-b', 'v+', 'head group']
+FREE_VALUES = ['abc', 's', 'l', '72', 'X1', 'a_b', '0.5', 'R', 'up', 'a-b', 'v+', 'head group', 'Fe(III)', '(R)']
 # free keys that merely look like reserved ones (they contain a reserved symbol or end in a verbose name)
 LOOKALIKE_KEYS = ['molweight', 'surfacecharge', 'qq', 'wx', 'xw', 'y', 'z', 'nchiral']
 
